@@ -49,61 +49,75 @@ def expected_depths(spec, cfg, contig, start, stop):
 
 @st.composite
 def case_strategy(draw):
-    n_bams = draw(st.integers(1, 3))
-    spec = draw(D.dataset_spec(max_loci=2, max_snvs=8, max_samples=1, max_reads=14, paired=False, flags=False, multi_rg=False,
-                               mapq_values=(0, 10, 19, 20, 21, 30, 60), n_contigs=1, min_reads=2, locus_len=(8, 14), sub_rate=4))
-    # replicate into n_bams single-sample bams with independent reads
-    base = spec["bams"][0]
-    bams = []
-    for i in range(n_bams):
-        if i == 0:
-            reads = base["reads"]
-        else:
-            other = draw(D.dataset_spec(max_loci=2, max_snvs=8, max_samples=1, max_reads=14, paired=False, flags=False, multi_rg=False,
-                                        mapq_values=(0, 10, 19, 20, 21, 30, 60), n_contigs=1, min_reads=2, locus_len=(8, 14), sub_rate=4))
-            # re-map the other dataset's reads onto this reference: keep geometry, re-derive sequence from this reference
-            reads = []
-            ref = spec["contigs"][0]["seq"]
-            for r in other["bams"][0]["reads"]:
-                span = D.ref_span(r["cigar"])
-                if r["pos"] + span + 1 >= len(ref):
-                    continue
-                seq = []
-                rp = r["pos"]
-                qi = 0
-                for op, n in r["cigar"]:
-                    if op in ("M", "=", "X"):
-                        for k in range(n):
-                            seq.append(r["seq"][qi + k] if r["seq"][qi + k] != other["contigs"][0]["seq"][rp + k] else ref[rp + k])
-                        rp += n
-                        qi += n
-                    elif op in ("D", "N"):
-                        rp += n
-                    else:
-                        seq.extend(r["seq"][qi:qi + n])
-                        qi += n
-                r2 = dict(r)
-                r2["seq"] = "".join(seq)
-                r2["contig"] = spec["contigs"][0]["name"]
-                reads.append(r2)
-        for k, r in enumerate(reads):
-            r["qname"] = "b%dq%d" % (i, k)
-            r["rg"] = "rg%d" % i
+    # one BAM per sample, all sequencing the same loci / SNVs (so that the same minor allele recurs across samples)
+    spec = draw(D.dataset_spec(max_loci=2, max_snvs=8, max_samples=3, min_samples=draw(st.sampled_from([1, 2, 2, 2, 3])), max_reads=14, paired=False,
+                               flags=False, multi_rg=False, mapq_values=(0, 10, 19, 20, 21, 30, 60), n_contigs=1, min_reads=2, locus_len=(8, 14), sub_rate=5))
+    for i, b in enumerate(spec["bams"]):
+        reads = b["reads"]
+        for r in reads:
             fl = {}
             if draw(st.integers(0, 2)) == 0:
                 fl[draw(st.sampled_from(["dup", "qcfail", "supp", "unmapped", "reverse"]))] = True
             r["flag"] = fl
-        bams.append({"name": "bam%d" % i, "read_groups": [{"id": "rg%d" % i, "sm": "S%d" % i}], "reads": reads})
-    spec["bams"] = bams
-    spec["samples"] = ["S%d" % i for i in range(n_bams)]
+        # samples of unbalanced depth: replicate the reads of some samples (new read names)
+        factor = draw(st.sampled_from([1, 1, 2, 5]))
+        if factor > 1:
+            rep = []
+            for f in range(factor):
+                for r in reads:
+                    r2 = dict(r)
+                    r2["qname"] = "%s_x%d" % (r["qname"], f)
+                    rep.append(r2)
+            b["reads"] = rep
+    n_bams = len(spec["bams"])
+    bams = spec["bams"]
     mapqs = sorted({r["mapq"] for b in bams for r in b["reads"]}) or [20]
     cfg = {"mapq": max(0, draw(st.sampled_from(mapqs)) + draw(st.sampled_from([0, 0, 1, -1]))), "keep_dup": draw(st.booleans()),
            "keep_qcfail": draw(st.booleans()), "keep_supp": draw(st.booleans()), "rg_field": "SM"}
     return {"kind": "find_snvs", "spec": spec, "cfg": cfg,
             "thr": {"ind_maf_pick": draw(st.integers(0, 50)), "ind_maf_eps": draw(st.sampled_from([0, 0, 1, -1])),
-                    "ind_mad": draw(st.sampled_from([0, 1, 1, 2, 2, 3, 4])), "min_ind": draw(st.sampled_from([1, 1, 1, 0] + list(range(1, n_bams + 1)))),
+                    "ind_maf_grid": draw(st.sampled_from([None, None, 0.1, 0.2, 0.25, 0.34, 0.5])),
+                    "ind_mad": draw(st.sampled_from([0, 1, 2, 2, 3, 3, 4, 5])), "min_ind": draw(st.sampled_from([1, 1, 1, 0] + list(range(1, n_bams + 1)))),
                     "maf_pick": draw(st.integers(0, 50)), "maf_on": draw(st.integers(0, 3)) == 0, "mad": draw(st.sampled_from([0, 0, 0, 1, 2, 3, 5, 8])),
                     "mad_realised": draw(st.integers(0, 2)) == 0, "mad_pick": draw(st.integers(0, 50))}}
+
+
+@st.composite
+def table_case(draw):
+    """Depth tables realised as reads: per sample a depth (shallow or deep) and, for each of 3 positions, counts of the four
+    nucleotides summing to the depth.  Aims at the joint per-individual rule (the SAME individual must meet --ind-maf and --ind-mad)."""
+    n_s = draw(st.integers(2, 3))
+    n_pos = 3
+    seq = "".join(draw(st.lists(st.sampled_from(NUC), min_size=30, max_size=30)))
+    start = 10
+    bams = []
+    for i in range(n_s):
+        depth = draw(st.sampled_from([2, 3, 4, 5, 20, 40, 60]))
+        cols = []
+        for p in range(n_pos):
+            minor = draw(st.integers(0, max(1, depth // 4 if depth > 10 else depth)))
+            minor2 = draw(st.integers(0, 2)) if depth - minor >= 2 else 0
+            major = depth - minor - minor2
+            alleles = list(draw(st.permutations(NUC)))
+            col = [alleles[0]] * major + [alleles[1]] * minor + [alleles[2]] * minor2
+            rot = draw(st.integers(0, depth - 1))
+            cols.append(col[rot:] + col[:rot])
+        reads = []
+        for k in range(depth):
+            rs = list(seq[start - 2:start + n_pos + 2])
+            for p in range(n_pos):
+                col = cols[p]
+                rs[2 + p] = col[k]
+            reads.append({"qname": "t%d_%d" % (i, k), "rg": "rg%d" % i, "contig": "chr1", "pos": start - 2, "cigar": [["M", n_pos + 4]], "seq": "".join(rs),
+                          "mapq": 60, "qual": 30, "flag": {}})
+        bams.append({"name": "bam%d" % i, "read_groups": [{"id": "rg%d" % i, "sm": "S%d" % i}], "reads": reads})
+    spec = {"contigs": [{"name": "chr1", "seq": seq}], "snvs": [], "loci": [{"contig": "chr1", "start": start, "stop": start + n_pos, "name": "T0"}],
+            "bams": bams, "samples": ["S%d" % i for i in range(n_s)]}
+    cfg = {"mapq": 20, "keep_dup": False, "keep_qcfail": False, "keep_supp": False, "rg_field": "SM"}
+    return {"kind": "find_snvs", "spec": spec, "cfg": cfg,
+            "thr": {"ind_maf_pick": 0, "ind_maf_eps": 0, "ind_maf_grid": draw(st.sampled_from([0.05, 0.1, 0.2, 0.25, 0.34, 0.5])),
+                    "ind_mad": draw(st.integers(1, 6)), "min_ind": draw(st.integers(1, n_s)), "maf_pick": 0, "maf_on": False, "mad": 0,
+                    "mad_realised": False, "mad_pick": 0}}
 
 
 def cfg_args(cfg):
@@ -175,7 +189,9 @@ def check_case(ctx, case):
             freqs = sorted({c / sum(x) for locus in spec["loci"] for per in expected_depths(spec, cfg, locus["contig"], locus["start"], locus["stop"]).values() for x in per if sum(x) > 0 for c in x if c > 0})
             t = case["thr"]
             ind_maf = 0.1
-            if freqs:
+            if t.get("ind_maf_grid") is not None:
+                ind_maf = t["ind_maf_grid"]
+            elif freqs:
                 ind_maf = min(1.0, max(0.0, freqs[t["ind_maf_pick"] % len(freqs)] + t["ind_maf_eps"] * 1e-3))
             maf = (freqs[t["maf_pick"] % len(freqs)] / max(1, n_b)) if (freqs and t["maf_on"]) else 0.0
             if t.get("mad_realised"):
@@ -289,3 +305,4 @@ def replay(ctx, case):
 def run(ctx):
     q = ctx.quick
     ctx.hyp("find_snvs", case_strategy(), check_case, 40 if q else 200)
+    ctx.hyp("threshold_table", table_case(), check_case, 40 if q else 200)
